@@ -21,7 +21,7 @@ pub broadcast axiom fn axiom_string_to_string(s: &String, r: String)
 pub broadcast axiom fn axiom_string_view_injective(a: String, b: String)
     ensures #[trigger] a@ == #[trigger] b@ ==> a == b;
 }
-broadcast use {ax::axiom_string_eq_spec, ax::axiom_string_obeys_eq, ax::axiom_string_to_string};
+// (each unit file has its one module-level `broadcast use`)
 
 // ---- A1: uuid::Uuid -- an opaque Copy value with structural equality -----------------------------
 #[derive(Eq, Clone, Copy, Debug, Hash)]
